@@ -38,13 +38,17 @@ IsInt(b, v) == IsSmallInt(b) /\ IntOf(b) = v
 Drift(r) == \/ r.status = "slow"
             \/ r.loose > 0 /\ (r.status = "err" \/ ~r.residual_small)
 
+\* the Jacobian of the first iteration, as recorded by the hook: entry (equation, free parameter) = the coefficient
+JacFails(r) == IF \A k \in 1..Len(r.jac) : r.jac[k][2] \in Free(r) /\ IsInt(r.jac[k][3], Coef(r.eqs[r.jac[k][1] + 1], r.jac[k][2]))
+               THEN {} ELSE {"jacobian"}
+
 Fails(r) ==
-  IF r.status = "slow" THEN {} ELSE
+  \* (a solve that was given up is not judged for its outcome, but the Jacobian it started from is)
+  IF r.status = "slow" THEN JacFails(r) ELSE
   IF r.status = "panic" THEN {"crash"} ELSE
   IF r.status = "err" THEN (IF r.loose > 0 THEN {} ELSE {"error"}) ELSE
      (IF Keys(r) = Free(r) /\ Len(r.result) = Cardinality(Free(r)) THEN {} ELSE {"result-keys"})
-  \cup (IF \A k \in 1..Len(r.jac) : r.jac[k][2] \in Free(r) /\ IsInt(r.jac[k][3], Coef(r.eqs[r.jac[k][1] + 1], r.jac[k][2]))
-        THEN {} ELSE {"jacobian"})
+  \cup JacFails(r)
   \cup (IF r.satisfied_start => \A k \in 1..Len(r.result) : r.result[k][2] = Start(r, r.result[k][1])
         THEN {} ELSE {"satisfied-start-moved"})
   \cup (IF r.loose > 0 \/ r.residual_small THEN {} ELSE {"residual"})
